@@ -6,9 +6,9 @@
    spaces, two loci n <= 4): multiplying every time scale by c and dividing every migration and
    recombination rate by c divides every transition rate by c and leaves the state list unchanged.
    (3) For every backend obeying the laws of the matrix exponential: if c S' = S then the first-moment
-   functional satisfies m1(S', c t) = c m1(S, t) (moments of order k scale by c^k: the k = 1 case
-   is proved, the general case follows the same conjugation by diag(1, c, ..., c^k) and is NOT
-   proved here); and the numerical regularisation is exact (any lam).
+   functional satisfies m1(S', c t) = c m1(S, t); and the numerical regularisation is exact (any lam).
+   Moments of order k scale by c^k and the regularisation is exact at every order k: proved for the
+   real matrix exponential at the end of this file (proofs/ExpLaws2.v).
    The 1e-9 accuracy claim over sizes 1e-3..1e9 concerns the floating-point backend and is decided
    by the scaling stream on the implementation, not by a theorem. *)
 From Coq Require Import ZArith QArith Reals List Arith.
@@ -93,3 +93,40 @@ Theorem C09_first_moment_time_rescaling_real :
     c *: S' = S -> m1 (fun n : nat => @mexp n) a S' Rw (c * t) = c *: m1 (fun n : nat => @mexp n) a S Rw t.
 Proof. by move=> *; apply: (m1_time_rescaling (expm := fun n : nat => @mexp n) (@mexp_intertwine)). Qed.
 Print Assumptions C09_first_moment_time_rescaling_real.
+
+(* ------------------------------------------------------------------------------------------------
+   Order k, with the real matrix exponential (proofs/ExpLaws2.v).  [mk rexpm a S Rs k t] is the
+   order-k Van Loan functional  a * (top-right block of mexp (t * VanLoan(S; Rs 0, ..., Rs (k-1)))) * 1
+   which the model's moment function computes up to the factor k! (props/C01.v,
+   C01_model_accumulate_is_van_loan_functional).  The statements hold for EVERY order k, every
+   dimension n, every real c, lam (zero included: no invertibility is used).
+
+   C09_time_rescaling_order_k_real     if S = c S' (all rates divided by c, i.e. time scales multiplied
+                                       by c) then the k-th moment at time c t is c^k times the k-th
+                                       moment of S at time t: moments of order k scale by c^k.
+   C09_regularisation_order_k_real     the regularisation used by _accumulate (generator times lam,
+                                       time divided by lam, result times lam^k) is exact at order k.
+   C09_reward_homogeneity_order_k_real multiplying every reward by c multiplies the k-th moment by c^k. *)
+From PG Require Import proofs.ExpLaws2.
+
+Theorem C09_time_rescaling_order_k_real :
+  forall n (a : 'rV[R]_n) (S S' : 'M[R]_n) (Rs : nat -> 'M[R]_n) (k : nat) (c t : R),
+    c *: S' = S ->
+    mk (fun n : nat => @mexp n) a S' Rs k (c * t) = c ^+ k *: mk (fun n : nat => @mexp n) a S Rs k t.
+Proof. exact: real_mk_time_rescaling. Qed.
+Print Assumptions C09_time_rescaling_order_k_real.
+
+Theorem C09_regularisation_order_k_real :
+  forall n (a : 'rV[R]_n) (S : 'M[R]_n) (Rs : nat -> 'M[R]_n) (k : nat) (lam t t' : R),
+    t' * lam = t ->
+    mk (fun n : nat => @mexp n) a S Rs k t
+    = lam ^+ k *: (a *m vltr (k := k) (mexp (t' *: vl (lam *: S) Rs k)) *m const_mx 1).
+Proof. exact: real_mk_regularisation. Qed.
+Print Assumptions C09_regularisation_order_k_real.
+
+Theorem C09_reward_homogeneity_order_k_real :
+  forall n (a : 'rV[R]_n) (S : 'M[R]_n) (Rs : nat -> 'M[R]_n) (c : R) (k : nat) (t : R),
+    mk (fun n : nat => @mexp n) a S (fun i => c *: Rs i) k t
+    = c ^+ k *: mk (fun n : nat => @mexp n) a S Rs k t.
+Proof. exact: real_mk_scale_all. Qed.
+Print Assumptions C09_reward_homogeneity_order_k_real.
